@@ -340,9 +340,9 @@ fn large_scope() -> (u64, u64, Vec<Found>, [u64; 4], usize) {
 
 pub fn run(thorough: bool, known: &dyn mc::KnownMatcher) -> Vec<RunStats> {
     let sc = if thorough {
-        Scope { n_small: 16, frac_n: 16, quorum_t_n: 4, quorum_q_n: 6, large: true }
+        Scope { n_small: 24, frac_n: 24, quorum_t_n: 6, quorum_q_n: 8, large: true }
     } else {
-        Scope { n_small: 9, frac_n: 9, quorum_t_n: 3, quorum_q_n: 4, large: true }
+        Scope { n_small: 12, frac_n: 12, quorum_t_n: 3, quorum_q_n: 5, large: true }
     };
     let mut runs = vec![];
     let t0 = std::time::Instant::now();
